@@ -22,8 +22,9 @@
    does not know is reported as MODEL (no verdict).                             *)
 EXTENDS HumanID
 
+CONSTANT TraceFile   \* the file with the recorded lines (slices of a trace are validated concurrently)
 VARIABLES l, prev
-TraceFromDisk == ndJsonDeserialize("trace.ndjson")
+TraceFromDisk == ndJsonDeserialize(TraceFile)
 Trace == TLCGet(3)
 E == Trace[l]
 tvars == <<row, l, prev>>
